@@ -21,7 +21,8 @@ CONSTANTS NWS,        \* numbers of Wannier functions of the base systems
           SC,         \* all amplitudes and on-site energies are multiples of SC (SC = DEN makes the interpolation exact)
           AEXT,       \* 0: alpha in [0, 1]; 1: also a = -1 and a = DEN + 1 (extrapolation)
           NSPINS,     \* subset of {1, 2}: SystemSOC(up) with one spin channel, SystemSOC(up, down)
-          Variant     \* "ok"; wrong variants for the sensitivity self-tests: "keepcentres", "anyU", "blockspin", "intersect"
+          NAMES,      \* names of further real-space matrices every base system carries (subset of AllNames)
+          Variant     \* "ok"; wrong variants for the sensitivity self-tests: "keepcentres", "anyU", "blockspin", "intersect", "fixednames"
 
 VARIABLES base, kind, cur, prev, hist,
           obs,        \* observation of cur: [k \in KS |-> <<H(k), characteristic polynomial of H(k)>>]
@@ -49,7 +50,12 @@ WithX(s) == [s EXCEPT !.hasX = TRUE,
                                                    IF R = Z3 THEN DiagMat([a \in 1..s.nw |-> SC * a]) ELSE MatZero(s.nw)))]
 Plain(nw, maxhops, neps, ncen, extras) ==
    Catalogue(nw, FirstN(CenChoices(nw), ncen), FirstN(EpsChoices(nw), neps), RGEN, AMPS, maxhops, extras)
-BaseCat == UNION {{IF x THEN WithX(s) ELSE s : s \in Plain(nw, MAXHOPS, NEPS, NCEN, {{}})} : nw \in NWS, x \in WITHX}
+(* the named matrices, derived from the Hamiltonian so that the catalogue does not grow; every name and Cartesian component gets
+   its own multiple of H(R) and its own on-site diagonal, so that no permutation and no mix-up of names or components goes unnoticed *)
+WithM(s) == [s EXCEPT !.M = [n \in NAMES |-> FunR(s.rs, LAMBDA R : Vec(NComp(n), LAMBDA c :
+                MatAdd(MatScale(GInt(3 * NameIdx(n) + c), s.H[R]),
+                       IF R = Z3 THEN DiagMat([a \in 1..s.nw |-> SC * a * (NameIdx(n) + 2 * c)]) ELSE MatZero(s.nw))))]]
+BaseCat == UNION {{WithM(IF x THEN WithX(s) ELSE s) : s \in Plain(nw, MAXHOPS, NEPS, NCEN, {{}})} : nw \in NWS, x \in WITHX}
 (* partners (second operand of MakeSOC / Interpolate): other centres, hops along the first direction with imaginary amplitude,
    optionally an R-vector of the second direction stored with zeros (so that the R-sets differ), with and without X *)
 Partners(nw) ==
@@ -69,7 +75,8 @@ Step(op, k2, new) == /\ Len(hist) < MAXLEN /\ hist' = Append(hist, op) /\ prev' 
 
 DoReorder == /\ "Reorder" \in OPS /\ kind = "R"
              /\ \E p \in Perms(cur.nw) : Step([op |-> "Reorder", p |-> p], "R",
-                                              IF Variant = "keepcentres" THEN ReorderKeepCentres(cur, p) ELSE Reorder(cur, p))
+                                              IF Variant = "keepcentres" THEN ReorderKeepCentres(cur, p)
+                                              ELSE IF Variant = "fixednames" THEN ReorderFixedNames(cur, p) ELSE Reorder(cur, p))
 DoRotate == /\ "Rotate" \in OPS /\ kind = "R"
             /\ \E U \in Units(cur) : Step([op |-> "Rotate", U |-> U], "R", Rotate(cur, U))
 DoDoubleSpin == /\ "DoubleSpin" \in OPS /\ kind = "R" /\ ~cur.spinor
